@@ -112,3 +112,34 @@ package inmem
 //@     assert [tail-log-inst; using logwf] collection.log[pos-1].Resource != nil
 //@   loop #2
 //@     invariant [tail-pos] minPos <= pos && pos <= collection.writePos && 0 <= minPos && collection.writePos - collection.capacity + collection.gap <= minPos
+
+// Delivery goroutine of Watch. Per outer iteration: the event sent is log[pos-1], it carries the
+// watched ID, and no event of that ID between the position at lock time and pos-1 was skipped;
+// pos never decreases. By induction over iterations the subscriber receives exactly the events of
+// that ID in log[start..), in order, each once. Errored is sent only on overrun (lag > capacity).
+
+//@ func (*ResourceCollection).Watch$2
+//@   props C02
+//@   autouse ring, logwf
+//@   assume [spawn] collection != nil && ctx != nil && 0 <= pos && pos <= collection.writePos
+//@   loop #1
+//@     invariant [outer] 0 <= pos && pos <= collection.writePos
+//@   loop #2
+//@     invariant [wait] held(collection.mu) && 0 <= pos && pos <= collection.writePos
+//@   loop #3
+//@     invariant [scan-held] held(collection.mu)
+//@     invariant [scan-pos] 0 <= acq(pos) && acq(pos) <= pos && pos <= collection.writePos && collection.writePos - acq(pos) <= collection.capacity
+//@     invariant [scan-nomatch; using scan-nomatch, scan-last, scan-event] forall q int64 :: acq(pos) <= q && q < pos - 1 ==> idOfEvent(collection.log[q]) != id
+//@     invariant [scan-event] pos > acq(pos) ==> event == collection.log[pos-1]
+//@     invariant [scan-last] pos > acq(pos) && pos < collection.writePos ==> idOfEvent(event) != id
+//@   at Metadata #1
+//@     assert [scan-ring-inst; using ring] event == collection.log[pos-1]
+//@     assert [scan-log-inst; using logwf] collection.log[pos-1].Resource != nil
+//@   at Metadata #2
+//@     assert [exit-progress] pos > acq(pos)
+//@     assert [exit-log-inst; using logwf] collection.log[pos-1].Resource != nil
+//@   at SendWithContext #2
+//@     assert [errored-only-on-overrun] collection.writePos - pos > collection.capacity
+//@   at SendWithContext #3
+//@     assert [deliver-next-match] acq(pos) <= pos - 1 && pos <= collection.writePos && event == collection.log[pos-1] && idOfEvent(event) == id
+//@     assert [deliver-none-skipped; using scan-nomatch, scan-last, scan-event] forall q int64 :: acq(pos) <= q && q < pos - 1 ==> idOfEvent(collection.log[q]) != id
